@@ -9,7 +9,7 @@ Shared op interpreter of the C08 and C15 model drivers: answers the op lines of
 
 Op lines (see `harness/hx-progacct/src/ops.rs` for the implementation side):
 ```
-setup <zc|fix|var> <progid:hex32> <disc:hex> <owner:hex32> <writable:0|1> <data:hex>   -> ok
+setup <zc|zc0|un|fix|var|unit> <progid:hex32> <disc:hex> <owner:hex32> <writable:0|1> <data:hex>   -> ok
 borrow none|shared|shared7|excl   -> ok           (data borrow held while the following ops run)
 decode                            -> ok | ok none | ok <ser v> | err:…
 validate | data | data_mut | cleanup | close | close_nr | serialize | reload | get
@@ -21,7 +21,7 @@ open Common Common.Proto Account.Validate Account.Borsh
 
 namespace Account.Driver.ProgAcct
 
-inductive Kind | zc | fix | var | zc0 | unit
+inductive Kind | zc | fix | var | zc0 | unit | un
 deriving Repr, DecidableEq
 
 structure St where
@@ -35,12 +35,13 @@ structure St where
 
 def parseKind : String → Option Kind
   | "zc" => some .zc | "fix" => some .fix | "var" => some .var
-  | "zc0" => some .zc0 | "unit" => some .unit | _ => none
+  | "zc0" => some .zc0 | "unit" => some .unit | "un" => some .un | _ => none
 
 /-- First discriminant byte of the kind's account type. -/
-def kindBase : Kind → Nat | .zc => 0x21 | .fix => 0x61 | .var => 0xa1 | .zc0 => 0xe1 | .unit => 0x31
+def kindBase : Kind → Nat
+  | .zc => 0x21 | .fix => 0x61 | .var => 0xa1 | .zc0 => 0xe1 | .unit => 0x31 | .un => 0x41
 
-def Kind.isZc : Kind → Bool | .zc => true | .zc0 => true | _ => false
+def Kind.isZc : Kind → Bool | .zc => true | .zc0 => true | .un => true | _ => false
 
 /-- The harness programs: one per discriminant width, id `[0x50, W, 0x11, 0x11, …]`. -/
 def progIdOf (W : Nat) : List Nat := [0x50, W] ++ List.replicate 30 0x11
@@ -49,11 +50,34 @@ def discOf (W : Nat) (k : Kind) : List Nat := (List.range W).map (fun j => (kind
 
 def widths : List Nat := [0, 1, 2, 3, 4, 5, 6, 7, 8, 12, 16, 24, 32]
 
+/-- Ids of the two extra programs: the crate's DECLARED program (what a declaration without a
+`program` argument refers to) and a second program with the default `[u8; 8]` discriminant type. -/
+def declId : List Nat := [0x50, 0xD0] ++ List.replicate 30 0x11
+def q8Id : List Nat := [0x50, 0xD1] ++ List.replicate 30 0x11
+
+/-- Account types declared through every OTHER declaration form (`harness/hx-progacct/src/progs.rs`):
+`#[unsized_type(program_account[, program = P][, seeds = S][, discriminant = e])]`, and the derive
+forms without `program` / with `seeds` / with the default Anchor-style sighash discriminant
+(`sha256("account:<Name>")[..8]`, listed literally: a change of the default shows as a disagreement). -/
+def extraTypes : List (Kind × List Nat × String) :=
+  [ (.zc, declId, "6482e1681f76f867"),   -- DZc        derive, zero_copy, declared program, sighash
+    (.fix, declId, "cd7ac81db27e5afa"),  -- DFix       derive, borsh, declared program, sighash
+    (.un, declId, "4cbc515f016b035f"),   -- DUn        unsized_type(program_account)
+    (.un, declId, "9597e1873c9f5495"),   -- DUnSeeds   unsized_type(program_account, seeds = ..)
+    (.un, q8Id, "569cd0cde328e8f1"),     -- UnQ8       unsized_type(program_account, program = q8)
+    (.un, q8Id, "ae97954c99c69ad5"),     -- UnQ8Seeds  … program = q8, seeds = ..
+    (.un, q8Id, "41464b50555a5f64"),     -- UnQ8Disc      … program = q8, discriminant = ..
+    (.un, q8Id, "51565b60656a6f74"),     -- UnQ8DiscSeeds … program = q8, seeds = .., discriminant = ..
+    (.zc, progIdOf 2, "4146"),           -- ZcSeeds2   derive, program = p2, seeds, discriminant
+    (.zc, q8Id, "504bc91dcb289d8d"),     -- ZcQ8       derive, program = q8, sighash
+    (.fix, q8Id, "b02d0ae92a1dc405") ]   -- FixQ8Seeds derive, borsh, program = q8, seeds, sighash
+
 /-- The account types that exist in the harness (anything else is `bad-op` on both sides); the
 width-1 program has an extra zero-copy type whose discriminant IS the closed marker. -/
 def knownType (k : Kind) (progId disc : List Nat) : Bool :=
-  widths.contains disc.length && progId == progIdOf disc.length &&
-    (disc == discOf disc.length k || (k == .zc && disc == [255]))
+  (k != .un && widths.contains disc.length && progId == progIdOf disc.length &&
+    (disc == discOf disc.length k || (k == .zc && disc == [255])))
+  || extraTypes.any (fun e => e.1 == k && e.2.1 == progId && parseHex e.2.2 == some disc)
 
 def codecOf : Kind → Codec Val
   | .var => varCodec
@@ -224,7 +248,7 @@ def step (s : Option St) (toks : List String) : Option St × String :=
     match parseKind k, parseKey pid, parseHex disc, parseKey owner, wb, parseHex data with
     | some k, some pid, some disc, some owner, some w, some data =>
       if knownType k pid disc then
-        let t : PType := { progId := pid, disc := disc, body := if k = .zc then 2 else 0 }
+        let t : PType := { progId := pid, disc := disc, body := if k = .zc ∨ k = .un then 2 else 0 }
         let a : Acct := { owner, data, writable := w, borrow := Borrow.free, orig := data.length }
         (some { kind := k, t, a, wrapper := none, drained := false }, "ok")
       else bad s
